@@ -142,8 +142,10 @@ func (p *BaseParty) unlock() {
 // ----- //
 
 func BaseStart(p Party, task string, prepare ...func(Round) *Error) *Error {
+	verifPoint("start:before-lock", p, nil)
 	p.lock()
 	defer p.unlock()
+	verifPoint("start:locked", p, nil)
 	if p.PartyID() == nil || !p.PartyID().ValidateBasic() {
 		return p.WrapError(fmt.Errorf("could not start. this party has an invalid PartyID: %+v", p.PartyID()))
 	}
@@ -202,7 +204,9 @@ func BaseUpdate(p Party, msg ParsedMessage, task string) (ok bool, err *Error) {
 		p.unlock()
 		return ok, err
 	}
+	verifPoint("update:before-lock", p, msg)
 	p.lock() // data is written to P state below
+	verifPoint("update:locked", p, msg)
 	if err := p.failed(); err != nil {
 		// a round of this party has failed: its state is incomplete and later rounds must not run on it
 		return r(false, err)
@@ -236,6 +240,7 @@ func BaseUpdate(p Party, msg ParsedMessage, task string) (ok bool, err *Error) {
 				common.Logger.Infof("party %s: %s finished!", p.PartyID(), task)
 			}
 			p.unlock()                      // recursive so can't defer after return
+			verifPoint("update:unlocked-before-recursion", p, msg)
 			return BaseUpdate(p, msg, task) // re-run round update or finish)
 		}
 		return r(true, nil)
